@@ -138,6 +138,33 @@ func malformed(class string, addr string, real []byte, head *entry.Entry, rng *r
 			pl = string(b)
 		}
 		return msg([]interface{}{with("payload", pl)})
+	case "real-identity-sig-changed", "real-identity-keysig-changed":
+		// a damaged copy of the real message: one character of a signature inside the head's identity block differs; the
+		// identity's id and key are the writer's own
+		id := map[string]interface{}{}
+		for k, v := range asMap(hm["identity"]) {
+			id[k] = v
+		}
+		sigs := map[string]interface{}{}
+		for k, v := range asMap(id["signatures"]) {
+			sigs[k] = v
+		}
+		field := "id"
+		if class == "real-identity-keysig-changed" {
+			field = "publicKey"
+		}
+		if sg, _ := sigs[field].(string); len(sg) > 12 {
+			b := []byte(sg)
+			p := 10 + rng.Intn(len(b)-12)
+			if b[p] == '1' {
+				b[p] = '2'
+			} else {
+				b[p] = '1'
+			}
+			sigs[field] = string(b)
+		}
+		id["signatures"] = sigs
+		return msg([]interface{}{with("identity", id)})
 	case "real-hash-alias":
 		// the real head announced under another CID of the same block: same digest, another codec or version
 		mhash := head.GetHash().Hash()
@@ -382,6 +409,12 @@ func wireCmd(args []string) int {
 					nvalid++
 					key := fmt.Sprintf("valid-%d", nvalid)
 					op, err := env.w1.S.(orbitdb.KeyValueStore).Put(ctx, key, []byte(key))
+					if err != nil && si > 0 && strings.Contains(err.Error(), "append denied") {
+						// the writer is on the write list of its own database: only something remembered from the malformed
+						// messages (the peers of the harness share one process) can make its access controller refuse it
+						viol(si, "valid-ignored", "after malformed messages the authorised writer's own valid write is refused: "+err.Error())
+						return
+					}
 					if err != nil {
 						res.Inconclusive = append(res.Inconclusive, b.ID+": "+err.Error())
 						return
